@@ -172,7 +172,10 @@ Section LastOwner.
     if k_weak K then uhdr o set_dropped m else m.
 
   Lemma getA_upd_eq o f m x : get m o = Some x -> get (upd o f m) o = Some (f x).
-  Proof. unfold get, upd. cbn. intros H. rewrite list_lookup_alter, H. reflexivity. Qed.
+  Proof.
+    unfold get, upd. cbn. intros H.
+    transitivity (f <$> heap m !! o); [apply list_lookup_alter | rewrite H; reflexivity].
+  Qed.
 
   Lemma st_dropping_dec_rc_m o m : st_dropping (dec_rc_m o m) = st_dropping m.
   Proof. unfold dec_rc_m. destruct (dec_rc (hdr_of m o)); reflexivity. Qed.
@@ -322,9 +325,9 @@ Definition never_destroyed (o : id) (l : list event) : bool :=
     outside the dying set, held by slot 4, and its destructor never ran / its box and side record
     were never freed during the whole run: it was alive when the upgrade returned None. *)
 Theorem F4_upgrade_none_target_alive :
-  exists (K : conf) (prog : prog) (fuel : nat),
-    let m := run_main K prog fuel (init K) in
-    wf_prog prog = true /\ no_bad m = true /\ inv_b K [] m = true /\ exact_b [] m = true /\
+  exists (K : conf) (fuel : nat),
+    let m := run_main K f4r_prog fuel (init K) in
+    wf_prog f4r_prog = true /\ no_bad m = true /\ inv_b K [] m = true /\ exact_b [] m = true /\
     (exists l1 l2 f, log m = l1 ++ ERes RNone :: ECb KDrop 2 f :: l2 /\ fl_d f = true) /\
     never_destroyed 1%nat (log m) = true /\
     (exists x, get m 1%nat = Some x /\ o_box x = BAlloc /\ o_vst x = VLive /\ h_rc (o_hdr x) = 2 /\
@@ -332,7 +335,7 @@ Theorem F4_upgrade_none_target_alive :
     slots m !! 4%nat = Some (Some 1%nat) /\
     (exists y, get m 2%nat = Some y /\ o_cls y = 3%nat /\ o_vst y = VDropped).
 Proof.
-  exists exK, f4r_prog, 60%nat. cbv zeta.
+  exists exK, 60%nat. cbv zeta.
   split; [vm_compute; reflexivity|]. split; [vm_compute; reflexivity|].
   split; [vm_compute; reflexivity|]. split; [vm_compute; reflexivity|].
   split.
